@@ -625,6 +625,30 @@ func init() {
 			rd.set(st, sEmpty(SSeqI))
 			return one(st, TupleV{TV{SInt, sLen(SSeqI, rem)}, nilErr()})
 		})
+	ext("io.CopyN", "io.CopyN(dst, src, n): moves min(n, available) bytes; nil iff n bytes were moved, io.EOF otherwise; allocation proportional to the bytes moved",
+		func(x *Exec, st *State, fr *Frame, cc *ssa.CallCommon, args []Val, instr ssa.Instruction) []Outcome {
+			w, _ := x.writerOf(st, args[0])
+			rd := x.readerOf(st, args[1])
+			n := x.toTV(st, args[2], types.Typ[types.Int64]).E
+			if w == nil || rd == nil {
+				x.note("io.CopyN between unmodelled streams")
+				x.havocForUnknown(st, args)
+				return one(st, x.symResult(st, cc))
+			}
+			rem := rd.get(st)
+			rl := sLen(SSeqI, rem)
+			short := st.fork()
+			short.assume(tAnd(tCmp("<", rl, n)))
+			w.set(short, sApp(SSeqI, w.get(short), rem))
+			rd.set(short, sEmpty(SSeqI))
+			st.assume(tCmp("<=", n, rl))
+			neg := tCmp("<", n, "0")
+			_ = neg
+			st.assume(tCmp("<=", "0", n))
+			w.set(st, sApp(SSeqI, w.get(st), sSl(SSeqI, rem, "0", n)))
+			rd.set(st, sSl(SSeqI, rem, n, rl))
+			return []Outcome{{short, TupleV{TV{SInt, rl}, ErrV{Class: "1", Wrapped: "false"}}}, {st, TupleV{TV{SInt, n}, nilErr()}}}
+		})
 	ext("io.ReadAll", "io.ReadAll(r): everything r yields until EOF",
 		func(x *Exec, st *State, fr *Frame, cc *ssa.CallCommon, args []Val, instr ssa.Instruction) []Outcome {
 			rd := x.readerOf(st, args[0])
